@@ -90,9 +90,144 @@ Proof.
     destruct (b_out _ _ _ _ B2 z Z3) as (O1 & O2 & O3). destruct (b_out _ _ _ _ B1 z Z2) as (P1 & P2 & P3).
     rewrite O1, O2, O3, P1, P2, P3, T1, T3, T4, !(upd_neq _ nx _ z Z1). now repeat split.
   - rewrite (b_reg _ _ _ _ B2), (b_reg _ _ _ _ B1), T6, ids_cons. cbn [rid rch x]. now rewrite <- !app_assoc.
-  - rewrite (b_idx _ _ _ _ B2), (b_idx _ _ _ _ B1), T7. cbn [flat_map]. rewrite pre_unfold, fold_left_app. cbn [rch x fold_left]. rewrite fold_left_app.
-    unfold hdid, rdid. cbn [hinf rinfo rid x]. now rewrite upd_eq.
+  - rewrite (b_idx _ _ _ _ B2), (b_idx _ _ _ _ B1), T7.
+    change (pre_f (x :: r')) with (pre x ++ pre_f r'). rewrite pre_unfold, fold_left_app. cbn [rch x app fold_left].
+    unfold hdid, rdid, h_init, add_all, set_inf. cbn [hinf rinfo rid x]. now rewrite upd_eq.
   - rewrite (b_all _ _ _ _ B2), (b_all _ _ _ _ B1), T5, ids_cons. cbn [rid rch x]. now rewrite <- !app_assoc.
   - now rewrite (b_typed _ _ _ _ B2), (b_typed _ _ _ _ B1), T8.
   - now rewrite (b_calc _ _ _ _ B2), (b_calc _ _ _ _ B1), T9.
+Qed.
+
+Lemma fold_left_map' {X Y S} (g : S -> Y -> S) (k : X -> Y) l : forall s, fold_left g (map k l) s = fold_left (fun a x => g a (k x)) l s.
+Proof. induction l as [|x l IH]; intros s; [reflexivity|]. cbn. apply IH. Qed.
+
+Lemma size_le_in c l : In c l -> size c <= size_f l.
+Proof. induction l as [|y l IH]; intros H; [contradiction|]. rewrite size_f_cons. destruct H as [->|H]; [lia|]. specialize (IH H). lia. Qed.
+
+(* Node._add_from builds exactly the copy [copy_f] describes, appended below dst *)
+Lemma add_from_below kk hs : forall fuel l src,
+  hch hs src = map rid l ->
+  (forall y, In y (pre_f l) -> hch hs (rid y) = map rid (rch y) /\ hinf hs (rid y) = rinfo y) ->
+  size_f l < fuel ->
+  forall h dst nx, dst < nx ->
+  exists h', h_add_from fuel kk hs src h dst nx = (h', snd (copy_f kk None nx l)) /\
+             Below h h' dst (fst (copy_f kk None nx l)).
+Proof.
+  induction fuel as [|fuel IH]; intros l src Hsrc Hn Lt h dst nx Ld; [lia|].
+  cbn [h_add_from]. rewrite Hsrc, fold_left_map'.
+  assert (Hsz : forall c, In c l -> size_f (rch c) < fuel).
+  { intros c Hc. assert (X := size_le_in c l Hc). destruct c as [id i ch]. rewrite size_unfold in X. cbn [rch]. lia. }
+  clear Hsrc Lt. revert h nx Ld. induction l as [|c l IHl]; intros h nx Ld.
+  - cbn. exists h. split; [reflexivity|apply Below_nil].
+  - cbn [fold_left]. rewrite copy_f_cons. destruct c as [cid ci cch] eqn:Ec. rewrite copy_t_unfold. cbv zeta.
+    assert (Hc : hch hs cid = map rid cch /\ hinf hs cid = ci).
+    { apply (Hn (T cid ci cch)). apply in_pre_f_top. now left. }
+    destruct Hc as (Hc1 & Hc2). cbn [rid]. rewrite Hc2.
+    set (a1 := h_register (h_init h nx dst (copy_info kk ci)) nx).
+    set (a2 := touch_root (set_chl a1 dst (hch a1 dst ++ [nx])) dst).
+    destruct (IH cch cid Hc1) with (h := a2) (dst := nx) (nx := S nx) as (a3 & E3 & B3).
+    { intros y Hy. apply Hn. cbn [flat_map]. apply in_or_app. left. cbn [pre]. now right. }
+    { apply (Hsz (T cid ci cch)). now left. }
+    { lia. }
+    rewrite E3. destruct (copy_ids_seq kk None (S nx) cch) as (S1 & S2).
+    set (kidsc := fst (copy_f kk None (S nx) cch)) in *. set (n1 := snd (copy_f kk None (S nx) cch)) in *.
+    destruct (IHl) with (h := a3) (nx := n1) as (h' & E' & B').
+    { intros y Hy. apply Hn. cbn [flat_map]. apply in_or_app. now right. }
+    { intros c' Hc'. apply Hsz. now right. }
+    { lia. }
+    destruct (copy_ids_seq kk None n1 l) as (R1 & R2).
+    destruct (copy_f kk None n1 l) as [r' n2] eqn:Er. cbn [fst snd] in *.
+    exists h'. split; [exact E'|].
+    apply (Below_step h dst nx (copy_info kk ci) kidsc r' a3 h' n1); auto; try lia.
+    + intros z Hz. rewrite S1 in Hz. apply in_seq in Hz. lia.
+    + intros z Hz. rewrite R1 in Hz. apply in_seq in Hz. lia.
+Qed.
+
+Lemma place_split_uniform nb ch : exists a b, ch = a ++ b /\ forall x, place nb x ch = a ++ x :: b.
+Proof.
+  unfold place. destruct ch as [|c ch]; [exists [], []; now split|].
+  destruct nb as [|z|s].
+  - exists (c :: ch), []. split; [now rewrite app_nil_r|reflexivity].
+  - exists (firstn (py_index z (length (c :: ch))) (c :: ch)), (skipn (py_index z (length (c :: ch))) (c :: ch)).
+    split; [symmetry; apply firstn_skipn|reflexivity].
+  - destruct (index_by_id s (c :: ch)) as [j|].
+    + exists (firstn j (c :: ch)), (skipn j (c :: ch)). split; [symmetry; apply firstn_skipn|reflexivity].
+    + exists (c :: ch), []. split; [now rewrite app_nil_r|reflexivity].
+Qed.
+
+Lemma node_of_row : forall l o r, In r (rows o l) -> exists y, In y (pre_f l) /\ rid y = r_id r /\ rinfo y = r_info r.
+Proof.
+  intros l o r Hr. assert (X : In (r_id r, r_info r) (map (fun r => (r_id r, r_info r)) (rows o l))) by (apply in_map_iff; now exists r).
+  rewrite (rows_nodes l o) in X. apply in_map_iff in X. destruct X as (y & E & Hy). injection E as E1 E2. now exists y.
+Qed.
+
+(* SUB-STEP: the freshly inserted leaf n receives the copied branches [kids] *)
+Lemma Rep_graft h3 h4 t p pq ch n inf nb kids :
+  WF t -> parent_path p (forest_of t) = Some pq -> get_ch pq (forest_of t) = Some ch ->
+  ~ In n (ids (forest_of t)) -> n <> 0 ->
+  Rep h3 (set_all t (upd_ch pq (place nb (T n inf [])) (forest_of t)) (reg t ++ [n]) (idx_add (i_did inf) n (idx t))) ->
+  hch h3 n = [] -> Below h3 h4 n kids -> NoDup (ids kids) ->
+  (forall z, In z (ids kids) -> ~ In z (ids (forest_of t)) /\ z <> 0 /\ z <> n) ->
+  Rep h4 (set_all t (upd_ch pq (place nb (T n inf kids)) (forest_of t)) (reg t ++ ids_t (T n inf kids))
+            (fold_left (fun a s => idx_add (rdid s) (rid s) a) (pre (T n inf kids)) (idx t))).
+Proof.
+  intros W Gp G Fn Nz R3 Hn3 Bl NDk Fk. set (f := forest_of t) in *.
+  destruct (ctx_kids pq f 0 ch (wf_nodup t W) (wf_pos t W) G) as (A & B & E1 & E2 & E3 & E4 & E5).
+  rewrite (parent_path_owner p f pq ch Gp G) in *.
+  destruct (place_split_uniform nb ch) as (a & b & Ech & Epl).
+  assert (E2a := E2 (place nb (T n inf []))). assert (E2b := E2 (place nb (T n inf kids))). clear E2.
+  rewrite !Epl, !flat_map_in_split in E2a, E2b. cbn [rows_t flat_map] in E2a. rewrite rows_t_unfold in E2b. cbn [rid rinfo rch] in E2b.
+  set (X := A ++ rows p a) in *. set (Y := rows p b ++ B) in *.
+  assert (R3rows : rows 0 (upd_ch pq (place nb (T n inf [])) f) = X ++ (p, n, inf) :: Y) by (rewrite E2a; unfold X, Y; la).
+  assert (R4rows : rows 0 (upd_ch pq (place nb (T n inf kids)) f) = X ++ (p, n, inf) :: rows n kids ++ Y) by (rewrite E2b; unfold X, Y; la).
+  assert (Pn : p <> n).
+  { intros ->. destruct (proj1 (parent_path_live n f) (ex_intro _ pq Gp)) as [Y0|Y0]; contradiction. }
+  assert (Nk : ~ In n (ids kids)) by (intros Y0; now apply Fk in Y0).
+  assert (XYold : forall r, In r (X ++ Y) -> In r (rows 0 f)).
+  { intros r. unfold X, Y. rewrite E1, Ech, rows_app, !in_app_iff. tauto. }
+  assert (XYid : forall r, In r (X ++ Y) -> ~ In (r_id r) (ids kids) /\ r_id r <> n).
+  { intros r Hr. apply XYold in Hr. assert (I := rows_id_in f 0 r Hr). split; [intros Y0; now apply Fk in Y0|congruence]. }
+  assert (XYpar : forall r, In r (X ++ Y) -> ~ In (r_par r) (ids kids) /\ r_par r <> n).
+  { intros r Hr. apply XYold in Hr. destruct (rows_parent_in f 0 r Hr) as [E|E].
+    - rewrite E. split; [intros Y0; apply Fk in Y0; tauto|congruence].
+    - split; [intros Y0; now apply Fk in Y0|congruence]. }
+  assert (Kpar : forall r, In r (rows n kids) -> r_par r = n \/ In (r_par r) (ids kids)) by (intros r Hr; now apply rows_par).
+  assert (Pk : ~ In p (ids kids)).
+  { intros Y0. destruct (proj1 (parent_path_live p f) (ex_intro _ pq Gp)) as [Z0|Z0]; apply Fk in Y0; tauto. }
+  constructor; cbn [set_all forest_of reg idx typed calc]; fold f.
+  - rewrite (b_reg _ _ _ _ Bl), (rep_reg _ _ R3). cbn [set_all reg]. rewrite ids_t_unfold. cbn [rid rch]. now rewrite <- app_assoc.
+  - rewrite (b_idx _ _ _ _ Bl), (rep_idx _ _ R3). cbn [set_all idx pre fold_left]. reflexivity.
+  - rewrite (b_typed _ _ _ _ Bl). apply R3.
+  - rewrite (b_calc _ _ _ _ Bl). apply R3.
+  - intros q. rewrite R4rows, !kids_app, kids_cons, kids_app. cbn [r_par r_id fst snd].
+    assert (Old := rep_ch _ _ R3 q). cbn [set_all forest_of] in Old. fold f in Old. rewrite R3rows, kids_app, kids_cons in Old. cbn [r_par r_id fst snd] in Old.
+    destruct (in_dec Nat.eq_dec q (ids kids)) as [Iq|Iq].
+    + (* a copied node *)
+      unfold ids in Iq. apply in_map_iff in Iq. destruct Iq as (y & <- & Hy).
+      assert (Iy : In (rid y) (ids kids)) by (unfold ids; now apply in_map).
+      rewrite (kids_none (rid y) X) by (intros r Hr E; apply (proj1 (XYpar r (in_or_app X Y r (or_introl Hr)))); now rewrite E).
+      rewrite (kids_none (rid y) Y) by (intros r Hr E; apply (proj1 (XYpar r (in_or_app X Y r (or_intror Hr)))); now rewrite E).
+      replace (Nat.eqb p (rid y)) with false by (symmetry; apply Nat.eqb_neq; intros E; apply Pk; now rewrite E).
+      cbn [app]. rewrite app_nil_r. rewrite (proj2 kids_node kids n y NDk Nk Hy). apply (b_node _ _ _ _ Bl y Hy).
+    + destruct (Nat.eq_dec q n) as [->|Qn].
+      * rewrite (b_dst _ _ _ _ Bl), Hn3. cbn [app]. rewrite Hn3 in Old.
+        replace (Nat.eqb p n) with false in * by (symmetry; now apply Nat.eqb_neq). cbn [app] in *.
+        symmetry in Old. apply app_eq_nil in Old. destruct Old as (O1 & O2). rewrite O1, O2, app_nil_r. cbn [app]. now rewrite (kids_top kids n Nk).
+      * rewrite (b_ch_out _ _ _ _ Bl q Qn Iq), Old. rewrite (kids_none q (rows n kids)); [reflexivity|].
+        intros r Hr E. destruct (Kpar r Hr) as [Z0|Z0]; [congruence|]. apply Iq. now rewrite <- E.
+  - intros r Hr. rewrite R4rows, in_app_iff in Hr. cbn [In] in Hr. rewrite in_app_iff in Hr.
+    assert (Cs : In r (X ++ (p, n, inf) :: Y) \/ In r (rows n kids)) by (rewrite in_app_iff; cbn [In]; tauto).
+    destruct Cs as [C|C].
+    + assert (Nr : ~ In (r_id r) (ids kids)).
+      { apply in_app_or in C. destruct C as [C|[<-|C]]; [apply (XYid r); apply in_or_app; now left|exact Nk|apply (XYid r); apply in_or_app; now right]. }
+      destruct (b_out _ _ _ _ Bl (r_id r) Nr) as (O1 & O2 & O3). rewrite O1, O2, O3.
+      apply (rep_node _ _ R3). cbn [set_all forest_of]. fold f. now rewrite R3rows.
+    + destruct (node_of_row kids n r C) as (y & Hy & Ry & Iy). destruct (b_node _ _ _ _ Bl y Hy) as (_ & N2 & N3).
+      rewrite <- Ry, N2, N3, Ry. refine (conj (b_par _ _ _ _ Bl r C) (conj eq_refl Iy)).
+  - assert (N0 : ~ In 0 (ids kids)) by (intros Y0; apply Fk in Y0; tauto). destruct (b_out _ _ _ _ Bl 0 N0) as (O1 & O2 & _). rewrite O1, O2. apply R3.
+  - rewrite (b_all _ _ _ _ Bl). intros m Hm. rewrite <- (rows_ids _ 0) in Hm. rewrite R4rows in Hm. apply in_map_iff in Hm. destruct Hm as (r & <- & Hr).
+    rewrite in_app_iff in Hr. cbn [In] in Hr. rewrite in_app_iff in Hr. apply in_or_app.
+    assert (Cs : In r (X ++ (p, n, inf) :: Y) \/ In r (rows n kids)) by (rewrite in_app_iff; cbn [In]; tauto).
+    destruct Cs as [C|C]; [left|right; now apply (rows_id_in kids n)].
+    apply (rep_all _ _ R3). cbn [set_all forest_of]. fold f. rewrite <- (rows_ids _ 0), R3rows. now apply in_map.
 Qed.
